@@ -165,4 +165,8 @@ class DeadCodeElimination(ModulePass):
     name = "dce"
 
     def apply(self, ctx: Context, op: ModuleOp) -> None:
-        region_dce(op.body)
+        # Erasing an operation can make the definitions that were only used inside of
+        # it dead, and erasing unreachable blocks can remove the only observable effects
+        # of an operation with recursive effects, so iterate until nothing changes.
+        while region_dce(op.body):
+            pass
